@@ -1754,6 +1754,20 @@ Qed.
 Theorem full_repaired : C18_full repaired.
 Proof. apply full_of_all_good. repeat split. Qed.
 
+(* every history from a fresh pair of tables, a fault position (or none) per operation *)
+Theorem histories_from_init (hash : Z -> Z) (bit0 : Z) : (0 <= bit0)%Z -> forall v, good v ->
+  forall h : list (aop * option nat), Forall aop_ok (map fst h) ->
+  exists st' obss s', run_m hash bit0 v h (init_tabs bit0) init_ast = Val (st', obss) s' /\
+    corrupt s' = false /\ libc_frees (rlog s') = 0 /\ TabsInv hash bit0 st' /\ LiveInv bit0 s' st' (fun _ => 0) /\
+    Rel st' (fst (spec_run (map fst h) (map is_error obss) (mkS [] []))) /\
+    Forall2 obs_ok obss (snd (spec_run (map fst h) (map is_error obss) (mkS [] []))).
+Proof.
+  intros Hb v Hg h Hok.
+  destruct (run_m_spec hash bit0 Hb v Hg h (init_tabs bit0) (mkS [] []) init_ast (fun _ => 0) Hok
+              (init_TabsInv hash bit0 Hb) (init_Rel bit0) (init_LiveInv bit0)) as (st' & obss & s' & E & C & Lb & H).
+  exists st', obss, s'. split; [exact E|]. split; [exact C|]. split; [exact Lb|exact H].
+Qed.
+
 (* ---- witnesses ---------------------------------------------------------------------------------------- *)
 Definition idh (x : Z) : Z := x.
 Definition b6 : Z := 6%Z.
@@ -1792,7 +1806,7 @@ Proof.
                Val (mkTabs (set_root wT false (Node wkey 3 [mkE 1 10 3; mkE 1 9 2] Leaf Leaf)) (KM.spki_init b6), ObsP ERROR [Removed wr1]) s0)
     by (eexists; vm_compute; reflexivity).
   destruct E2 as (s0 & E2). rewrite E2 in E. injection E as <- <- _.
-  destruct Hcase as [(_ & Hq & _)|(He & _)]; [cbn in Hq; discriminate|cbn in He; discriminate].
+  destruct Hcase as [(_ & Hq & _)|(He & _)]; [cbn in Hq; discriminate Hq|cbn in He; discriminate He].
 Qed.
 
 (* thirty-two router keys (identity hash, TOMMY_HASHLIN_BIT = 6): the next insert starts a grow *)
@@ -1813,13 +1827,13 @@ Proof.
     as (st' & ob & s' & E & _).
   assert (E2 : exists s0, step_m idh b6 (mkV a false c d e f g) (OKAdd (KM.mkE 33 1 1 2)) wst32 (arm (Some 2) (ws32 2)) = Crash s0)
     by (eexists; vm_compute; reflexivity).
-  destruct E2 as (s0 & E2). rewrite E2 in E. discriminate.
+  destruct E2 as (s0 & E2). rewrite E2 in E. discriminate E.
 Qed.
 
 Theorem refuted_init v : init_checked v = false -> ~ C18_full v.
 Proof.
   intros Hv (_ & _ & Hi). destruct (Hi (mkA (Some 1) 0 [] [] false)) as (b & s' & E).
-  unfold init_m, bind, malloc, alloc_gen in E. cbn in E. rewrite Hv in E. discriminate.
+  unfold init_m, bind, malloc, alloc_gen in E. cbn in E. rewrite Hv in E. discriminate E.
 Qed.
 
 Theorem refuted_free v : free_cfg v = false -> ~ C18_full v.
@@ -1861,7 +1875,7 @@ Proof.
   assert (E2 : exists s0, step_m idh b6 (mkV a b c d false f g) o wstN (arm (Some 2) (wsN 2)) = Val (wstN, ObsV None) s0 /\
                           cnt PReason (live s0) = 1) by (eexists; split; vm_compute; reflexivity).
   destruct E2 as (s0 & E2 & Hleak). rewrite E2 in E. injection E as <- _ <-.
-  specialize (HL PReason). rewrite Hleak in HL. vm_compute in HL. discriminate.
+  specialize (HL PReason). rewrite Hleak in HL. vm_compute in HL. discriminate HL.
 Qed.
 
 (* two router keys with one SKI: the second (re)allocation of the result array fails *)
